@@ -235,8 +235,9 @@ def check_property(prop, tier, jobs, seed, t0):
         "wall_s": round(time.time() - t0, 2),
         "violations": len(violations) + len(b_viol),
     }
-    os.makedirs(os.path.join(ROOT, "evidence"), exist_ok=True)
-    json.dump(ev, open(os.path.join(ROOT, "evidence", "%s.json" % prop), "w"), indent=1, default=str)
+    evdir = os.environ.get("VERIF_EVIDENCE_DIR") or os.path.join(ROOT, "evidence")
+    os.makedirs(evdir, exist_ok=True)
+    json.dump(ev, open(os.path.join(evdir, "%s.json" % prop), "w"), indent=1, default=str)
 
     for k, v in kf_hits.items():
         f = next(x for x in known["findings"] if x["id"] == k)
